@@ -1,10 +1,13 @@
 (* C11 — property theorems only.  Each is closed by [exact lemma]; Print Assumptions beneath.
    Model/C11.v: should_count = read_should_be_counted (repaired, fixes/C11-D14.patch), weight / incs / assign =
    assignReads (non-binned branches), count_table = the accumulation of create_count_table.
-   passes / spec_cell are the declarative filter conjunction and the group-by sum (Proofs/C11.v, Model/C11.v). *)
+   passes / spec_cell are the declarative filter conjunction and the group-by sum (Proofs/C11.v, Model/C11.v).
+   Model/C11x.v: xrun = create_count_table around that accumulation (several files, -head loops as coded, --showtags /
+   output mode, --bulk); xspec_cell / xspec_bulk the group-by sums over the records the loops hand on. *)
 From Coq Require Import ZArith List Bool QArith.
 Import ListNotations.
-From SCMO Require Import Model.C11 Gen.GenCountFilter Proofs.C11 Proofs.C11_table Proofs.C11_keys Proofs.C11_gen.
+From SCMO Require Import Model.C11 Model.C11x Gen.GenCountFilter Proofs.C11 Proofs.C11_table Proofs.C11_keys Proofs.C11_gen
+  Proofs.C11x.
 Open Scope Z_scope.
 
 (* a read is counted iff it passes every selected filter; the conjunction [passes] is stated without any order *)
@@ -121,14 +124,33 @@ Print Assumptions C11_multimap.
 Theorem C11_by_value : forall o r jt b l,
   o_jtags o = Some jt -> jt <> [] -> o_split o = false -> o_byvalue o = Some b -> assign o None r = Ok l ->
   passes o r ->
-  l = [((map (meta r) (o_stags o), map KS (joined_feature o (snd (prep o)) r)), py_float_or_0 (feat r b))].
+  l = [((map (meta r) (o_stags o), map KS (joined_feature o (snd (prep o)) r)), num_of (meta r b))].
 Proof. exact assign_by_value. Qed.
 Print Assumptions C11_by_value.
 
 (* ... which for an integer tag is that integer, and for a decimal string tag its value *)
-Theorem C11_by_value_int : forall r b z, meta r b = Some (TInt z) -> (py_float_or_0 (feat r b) == inject_Z z)%Q.
+Theorem C11_by_value_int : forall r b z, meta r b = Some (TInt z) -> (num_of (meta r b) == inject_Z z)%Q.
 Proof. exact by_value_int. Qed.
 Print Assumptions C11_by_value_int.
+
+(* a float-typed tag (BAM types f, d) adds its exact value: float(str(x)) = x; a string tag the value of its decimal
+   literal, 0 when it is none (float() raises ValueError, caught) *)
+Theorem C11_by_value_float : forall r b q s, meta r b = Some (TFlt q s) -> num_of (meta r b) = q.
+Proof. exact by_value_float. Qed.
+Print Assumptions C11_by_value_float.
+
+Theorem C11_by_value_str : forall r b s, meta r b = Some (TStr s) ->
+  num_of (meta r b) = match parse_decimal s with Some q => q | None => 0%Q end.
+Proof. exact by_value_str. Qed.
+Print Assumptions C11_by_value_str.
+
+(* table level: with joined tags and -byValue every cell is the exact sum of the by-value tag over the counted records
+   of that sample and key (pair / multimapping weights play no part) *)
+Theorem C11_by_value_table : forall o reads t jt b,
+  o_jtags o = Some jt -> jt <> [] -> o_split o = false -> o_byvalue o = Some b -> o_bed o = None -> o_contig o = None ->
+  count_table o reads = Ok t -> forall k, (cell k t == byvalue_sum o b k reads)%Q.
+Proof. exact by_value_table. Qed.
+Print Assumptions C11_by_value_table.
 
 (* the whole table: every cell holds the group-by sum of the declarative contributions of the presented reads;
    holds for EVERY option record and read list on which the run does not raise (no well-formedness needed) *)
@@ -142,6 +164,128 @@ Theorem C11_specb_sound : forall o reads t,
   count_table o reads = Ok t -> specb o reads (Some (filter nonzero t)) = true.
 Proof. exact specb_sound. Qed.
 Print Assumptions C11_specb_sound.
+
+(* ---- extension (Model/C11x.v): several alignment files, -head, --showtags / output mode, --bulk ---- *)
+(* table statement, extended: for EVERY extended option record (all options of [opts] plus -head, --bulk, --showtags, return_df / -o)
+   and every list of files on which the run does not raise, each cell is the group-by sum of the declarative
+   contributions of the records the loops hand to assignReads ([xpresented]: per file - and in BED mode per region -
+   a prefix of what the iterator yields, see the C11_head theorems) *)
+Theorem C11_table_eq_spec_x : forall x files t,
+  xcount x files = Ok t -> forall k, (cell k t == xspec_cell x k files)%Q.
+Proof. exact xcount_spec. Qed.
+Print Assumptions C11_table_eq_spec_x.
+
+Theorem C11_no_raise_x : forall x files, xpre x files = true -> exists t, xcount x files = Ok t.
+Proof. exact xcount_total. Qed.
+Print Assumptions C11_no_raise_x.
+
+(* conservative: one file without -head is the table of Model/C11.v; several files without BED / -head the table of
+   the concatenated stream *)
+Theorem C11_x_conservative : forall x reads,
+  is_nil (snd (prep (x_o x))) = false -> x_head x = None -> xcount x [reads] = count_table (x_o x) reads.
+Proof. exact xcount_conservative. Qed.
+Print Assumptions C11_x_conservative.
+
+Theorem C11_x_files_concat : forall x files,
+  is_nil (snd (prep (x_o x))) = false -> x_head x = None -> o_bed (x_o x) = None ->
+  xcount x files = count_table (x_o x) (concat files).
+Proof. exact xcount_concat. Qed.
+Print Assumptions C11_x_files_concat.
+
+(* -head N as coded.  Plain / -contig loop (test before the call, `i > N`): exactly the first N + 1 records the
+   iterator yields are handed to assignReads (none when N < 0) ... *)
+Theorem C11_head_plain : forall o h reads acc,
+  loop_plain o h 0 reads acc
+  = count_reads o None (match h with None => reads | Some n => firstn (Z.to_nat (n + 1)) reads end) acc.
+Proof. exact loop_plain_head. Qed.
+Print Assumptions C11_head_plain.
+
+(* ... BED loop (test after the call): the first N + 2 records of every fetched region, at least one *)
+Theorem C11_head_bed : forall o reg h reads acc,
+  loop_bed o reg h 0 reads acc
+  = count_reads o (Some reg) (match h with None => reads | Some n => firstn (Z.to_nat (Z.max 1 (n + 2))) reads end) acc.
+Proof. exact loop_bed_head. Qed.
+Print Assumptions C11_head_bed.
+
+(* hence: one file, plain mode: the -head N table is the table of the first N + 1 records *)
+Theorem C11_head_table : forall x n reads,
+  is_nil (snd (prep (x_o x))) = false -> x_head x = Some n -> o_bed (x_o x) = None -> o_contig (x_o x) = None ->
+  xcount x [reads] = count_table (x_o x) (firstn (Z.to_nat (n + 1)) reads).
+Proof. exact xcount_head_plain. Qed.
+Print Assumptions C11_head_table.
+
+(* the documented meaning ("run the algorithm only on the first N reads") does NOT hold: -head 1 on three counted
+   records of one cell gives 2, the first 1 record would give 1  (finding D33; BED mode: -head 0 counts 2) *)
+Theorem C11_head_documented_refuted : exists x n reads t k,
+  x_head x = Some n /\ 0 <= n /\ xpre x [reads] = true /\ o_bed (x_o x) = None /\ o_contig (x_o x) = None /\
+  xcount x [reads] = Ok t /\ ~ (cell k t == spec_cell (x_o x) k (firstn (Z.to_nat n) reads))%Q.
+Proof.
+  exists (hx_x (Some 1)), 1, hx_reads. destruct head_documented_refuted as (Hp & t & Ht & _ & _ & Hne).
+  exists t, hx_key. repeat split; try reflexivity; try assumption. discriminate.
+Qed.
+Print Assumptions C11_head_documented_refuted.
+
+Theorem C11_head_bed_documented_refuted : exists x reads t k,
+  x_head x = Some 0 /\ xpre x [reads] = true /\ xcount x [reads] = Ok t /\ (cell k t == 2)%Q.
+Proof.
+  exists (hx_bed_x (Some 0)), hx_reads. destruct head_bed_documented_refuted as (Hp & t & Ht & Hc).
+  exists t, hx_bed_key. repeat split; assumption.
+Qed.
+Print Assumptions C11_head_bed_documented_refuted.
+
+(* --bulk (file output): on EVERY input the run is the run without --bulk with the table replaced by its row sums ... *)
+Theorem C11_bulk_run : forall x files,
+  x_return_df x = false ->
+  xrun (set_bulk true x) files
+  = match xrun (set_bulk false x) files with XTable t => XTable (bulk_of t) | r => r end.
+Proof. exact xrun_bulk. Qed.
+Print Assumptions C11_bulk_run.
+
+(* ... where the single column holds, per key, the sum of the per-cell table over all samples, and nothing else *)
+Theorem C11_bulk_colsum : forall t k, (cell (bulk_sample, k) (bulk_of t) == key_sum k t)%Q.
+Proof. exact bulk_colsum. Qed.
+Print Assumptions C11_bulk_colsum.
+
+Theorem C11_bulk_one_sample : forall t s k, s <> bulk_sample -> (cell (s, k) (bulk_of t) == 0)%Q.
+Proof. exact bulk_other_sample. Qed.
+Print Assumptions C11_bulk_one_sample.
+
+(* table statement for --bulk: every Bulkseq cell is the group-by-key sum of the contributions of all presented records *)
+Theorem C11_table_bulk_eq_spec : forall x files t,
+  xcount x files = Ok t -> forall k, (cell (bulk_sample, k) (bulk_of t) == xspec_bulk x k files)%Q.
+Proof. exact xcount_bulk_spec. Qed.
+Print Assumptions C11_table_bulk_eq_spec.
+
+(* create_count_table(args, return_df=True) returns before --bulk is looked at *)
+Theorem C11_bulk_ignored_return_df : forall x files b,
+  x_return_df x = true -> xrun (set_bulk b x) files = xrun x files.
+Proof. exact xrun_bulk_ignored. Qed.
+Print Assumptions C11_bulk_ignored_return_df.
+
+(* --showtags, or neither -o nor return_df: the tag listing is printed and the process exits; nothing is counted *)
+Theorem C11_showtags_exit : forall x files, files <> [] -> exits x = true -> xrun x files = XExit.
+Proof. exact xrun_showtags. Qed.
+Print Assumptions C11_showtags_exit.
+
+(* a table comes out only otherwise, and it is the accumulated table or its row sums *)
+Theorem C11_run_table : forall x files t,
+  xrun x files = XTable t ->
+  exits x = false /\ exists t0, xcount x files = Ok t0 /\ t = if bulk_mode x then bulk_of t0 else t0.
+Proof. exact xrun_table. Qed.
+Print Assumptions C11_run_table.
+
+(* the executable specification evaluated on the implementation's outcome accepts every outcome of the model *)
+Theorem C11_specb_sound_x : forall x files, xspecb x files (obs_of (xrun x files)) = true.
+Proof. exact xspecb_sound. Qed.
+Print Assumptions C11_specb_sound_x.
+
+(* non-vacuity: two files, -head 1 (2 + 1 records presented), by-value on a float tag (0.5, 0.25, 0.25), --bulk *)
+Example C11_example_x :
+  xpre bx_x bx_files = true /\
+  exists t, xrun bx_x bx_files = XTable t /\ (cell (bulk_sample, bx_key) t == 1)%Q /\
+            length (xpresented bx_x bx_files) = 3%nat.
+Proof. exact bx_ok. Qed.
+Print Assumptions C11_example_x.
 
 (* ---- T: the definitions regenerated from the CURRENT source on every run (Gen/GenCountFilter.v) ---- *)
 (* the ordered guard chain of read_should_be_counted, as the source states it now, is the model's filter ... *)
@@ -171,6 +315,21 @@ Theorem C11_source_selected_mate : forall o r w,
   o_r1only o = true \/ o_r2only o = true -> o_div_multi o = false -> gen_weight o r = Ok w -> (w == 1)%Q.
 Proof. exact gen_selected_mate_weight. Qed.
 Print Assumptions C11_source_selected_mate.
+
+(* -head: the two enumerate loops of create_count_table AS THE SOURCE STATES THEM NOW (break test gen_head_stop_plain / _bed,
+   placed before / after the assignReads call: gen_head_test_first_plain / _bed) hand exactly the first N + 1 records (plain,
+   -contig), resp. the first max 1 (N + 2) records of the region (BED), to assignReads *)
+Theorem C11_source_head_plain : forall o h reads acc,
+  loop_src gen_head_test_first_plain gen_head_stop_plain o None h 0 reads acc
+  = count_reads o None (match h with None => reads | Some n => firstn (Z.to_nat (n + 1)) reads end) acc.
+Proof. exact gen_head_plain. Qed.
+Print Assumptions C11_source_head_plain.
+
+Theorem C11_source_head_bed : forall o reg h reads acc,
+  loop_src gen_head_test_first_bed gen_head_stop_bed o (Some reg) h 0 reads acc
+  = count_reads o (Some reg) (match h with None => reads | Some n => firstn (Z.to_nat (Z.max 1 (n + 2))) reads end) acc.
+Proof. exact gen_head_bed. Qed.
+Print Assumptions C11_source_head_bed.
 
 (* the -byValue auto-append test of create_count_table is a membership test on the parsed tag list *)
 Theorem C11_source_autoappend : forall o,
